@@ -1099,7 +1099,7 @@ fn native_exd_files() {
 }
 
 //@unit props=C18 label=B tier=quick native=1 fn=exd::EXD::{from_existing,read_row},exh::EXH::from_existing bound="by execution: the 20-column header and a 3-row page with sub-rows of native_exd_files: every truncation and 7 single-byte corruptions per byte of the page (read with the intact header) and of the header (used to read the intact page), each followed by read_row on every stored id"
-//@desc damaged sheet headers and pages (truncated, any count, offset, type code, size or string byte damaged) yield None or values, never a panic
+//@desc extreme row lengths, column offsets and sub-row counts (0xFFFF each, all column types) and damaged sheet headers and pages (truncated, any count, offset, type code, size or string byte damaged) yield None or values, never a panic
 #[test]
 fn native_exd_damaged_nopanic() {
     let hb = nex_exh(40, &nex_columns(), &[(0, 100)], &[0]);
@@ -1107,6 +1107,16 @@ fn native_exd_damaged_nopanic() {
     let mut s = NativeSites::new();
     { let hb = hb.clone(); let f = move |b: &[u8]| { if let (Some(h), Some(p)) = (EXH::from_existing(&hb), EXD::from_existing(b)) { for id in [1u32, 2, 3, 4] { let _ = p.read_row(&h, id); } } }; s.sweep(&pb, 1 << 20, 1, &f); }
     { let pb = pb.clone(); let f = move |b: &[u8]| { if let (Some(h), Some(p)) = (EXH::from_existing(b), EXD::from_existing(&pb)) { for id in [1u32, 2, 3, 4] { let _ = p.read_row(&h, id); } } }; s.sweep(&hb, 1 << 20, 1, &f); }
+    // extreme counts that single-byte damage does not reach: one-column headers (each column type) whose fixed-size row length and column offset are
+    // 0xFFFF, with a page whose only row claims 1, 2, 0x8000 and 0xFFFF sub-rows and has no payload (the last sub-rows lie beyond 4 GiB)
+    for ty in [0x0u16, 0x1, 0x2, 0x3, 0x4, 0x5, 0x6, 0x7, 0x9, 0xA, 0xB, 0x19, 0x1A, 0x20] { for (data_offset, col_off) in [(0xFFFFu16, 0xFFFFu16), (0xFFFF, 0), (4, 0xFFFF), (0, 0)] { for subrows in [1u16, 2, 0x8000, 0xFFFF] {
+        let mut hb2: Vec<u8> = b"EXHF".to_vec(); hb2.extend_from_slice(&3u16.to_be_bytes()); hb2.extend_from_slice(&data_offset.to_be_bytes()); hb2.extend_from_slice(&1u16.to_be_bytes()); hb2.extend_from_slice(&[0u8; 4]); hb2.extend_from_slice(&[0u8; 6]);
+        hb2.extend_from_slice(&1u32.to_be_bytes()); hb2.extend_from_slice(&[0u8; 8]); hb2.extend_from_slice(&ty.to_be_bytes()); hb2.extend_from_slice(&col_off.to_be_bytes());
+        let mut pb2: Vec<u8> = b"EXDF".to_vec(); pb2.extend_from_slice(&2u16.to_be_bytes()); pb2.extend_from_slice(&[0u8; 2]); pb2.extend_from_slice(&8u32.to_be_bytes()); pb2.extend_from_slice(&[0u8; 20]);
+        pb2.extend_from_slice(&1u32.to_be_bytes()); pb2.extend_from_slice(&40u32.to_be_bytes()); pb2.extend_from_slice(&0u32.to_be_bytes()); pb2.extend_from_slice(&subrows.to_be_bytes());
+        let f = move |b: &[u8]| { if let (Some(h), Some(p)) = (EXH::from_existing(&hb2), EXD::from_existing(b)) { let _ = p.read_row(&h, 1); let _ = p.read_row(&h, 2); } };
+        s.run(&f, &pb2, &format!("one column of type {ty:#x} at offset {col_off:#x}, row length {data_offset:#x}, a row claiming {subrows} sub-rows without payload"));
+    } } }
     s.finish("native_exd_damaged_nopanic");
 }
 
